@@ -1116,8 +1116,9 @@ Proof.
 Qed.
 
 (* ---------------- the session:  with PGMCompiler(...) as G: <ops>  ---------------- *)
+(* __enter__ starts the dwell total of the new program from zero *)
 Definition h_enter (c : cfg) (st : cstate) : res :=
-  let '(st1, e1) := do_dwell st (Some 1) in
+  let '(st1, e1) := do_dwell (st_dwell st 0) (Some 1) in
   let '(st2, e2) := if aero c then enter_rot c st1 false else (st1, []) in
   (st2, header_toks c ++ e1 ++ e2, Ok).
 
@@ -1132,20 +1133,28 @@ Proof. intros c st H. unfold enter_rot. rewrite H. reflexivity. Qed.
 Lemma tok_header : forall pc, tok_of_line [PHeader (lower (laser pc))] = flatten (header_toks (abs_cfg pc)).
 Proof. reflexivity. Qed.
 
+Lemma Sim_reset_dwell : Sim (modify (set_total_dwell_time (0 # 1)%Q)) (fun st => (st_dwell st 0, [], Ok)).
+Proof.
+  intros s st HR; cbn. split; [destruct HR; constructor; try assumption; reflexivity|].
+  split; [now rewrite app_nil_r|exact I].
+Qed.
+
 Lemma Sim_enter : forall pc, laser_ok (abs_cfg pc) = true -> Sim (src___enter__ pc) (h_enter (abs_cfg pc)).
 Proof.
   intros pc Hl. unfold src___enter__, src_header. cbn [laser_ok abs_cfg] in Hl. fold lasers. rewrite Hl.
   change (is_none (cfg_laser pc) || negb true)%bool with false. cbv iota.
   unfold as_opt, asopt_val.
-  apply (Sim_ext _ (fun st => seq (seq (st, header_toks (abs_cfg pc), Ok) (fun st => seq (st, [], Ok) (fun st => (st, [], Ok))))
+  apply (Sim_ext _ (fun st => seq (st_dwell st 0, [], Ok) (fun st =>
+                     seq (seq (st, header_toks (abs_cfg pc), Ok) (fun st => seq (st, [], Ok) (fun st => (st, [], Ok))))
                      (fun st => seq (h_dwell (Some 1) st) (fun st => seq (st, [], Ok)
                         (fun st => if truthy (cfg_aerotech_angle pc)
-                                   then seq (h_enter_rot pc true st) (fun st => (st, [], Ok)) else (st, [], Ok)))))).
+                                   then seq (h_enter_rot pc true st) (fun st => (st, [], Ok)) else (st, [], Ok))))))).
   { intros st. unfold seq, h_enter, h_dwell, h_enter_rot. cbn [aero abs_cfg].
-    destruct (do_dwell st (Some 1)) as [st1 e1].
+    destruct (do_dwell (st_dwell st 0) (Some 1)) as [st1 e1].
     destruct (truthy (cfg_aerotech_angle pc)) eqn:Ea.
     - rewrite (enter_rot_aero (abs_cfg pc) st1 Ea). destruct (enter_rot (abs_cfg pc) st1 true) as [st2 e2]. cbn. now rewrite !app_nil_r.
     - cbn. now rewrite !app_nil_r. }
+  apply Sim_bind; [apply Sim_reset_dwell|intros _].
   apply Sim_bind; [|intros _].
   { apply Sim_bind; [apply Sim_append; apply tok_header|intros _].
     apply Sim_bind; [apply Sim_blank|intros _; apply Sim_ret]. }
@@ -1205,6 +1214,7 @@ Proof.
   destruct (laser_ok (abs_cfg pc)) eqn:Hl; cbn [negb].
   2:{ unfold src___enter__, src_header. cbn [laser_ok abs_cfg] in Hl. fold lasers. rewrite Hl. reflexivity. }
   pose proof (Sim_elim _ _ (Sim_enter pc Hl) p0 c0 Rel0) as H1. unfold SimR, h_enter in H1.
+  change (st_dwell c0 0) with c0 in H1.
   destruct (do_dwell c0 (Some 1)) as [st1 e1].
   destruct (if aero (abs_cfg pc) then enter_rot (abs_cfg pc) st1 false else (st1, [])) as [st2 e2].
   destruct H1 as (R1 & T1 & O1).
